@@ -1,0 +1,49 @@
+//go:build verif
+
+package join
+
+// Contracts for the join plugin (C17, C16, C01, C09), read by /verif's gvc (comment-only file).
+// The channel forms (genChan, genChanVariant, genSliceOfChan) belong to C19, which is
+// outside a sequential contract calculus; they are under the text-level obligations only.
+
+//@ func (g *gen) Add(name string, typs []types.Type) (r string, err error)
+//@ param typs: len=0,1,2,3
+//@ param name: classes=Ident
+
+//@ func (g *gen) Generate(typs []types.Type) (err error)
+//@ param typs: len=1,2
+
+//@ func (g *gen) genSlice(typs []types.Type) (err error)
+//@ param typs: len=1
+//@ emits: decls
+//@ serves: join len=1 kind=Slice ekind=Slice typs=typs
+//@ o-sig: (listOfLists [][]$elem(elem(typs[0]))) (r []$elem(elem(typs[0])))
+//@ o-pure
+//@ o-ensures: [nil-for-nil] (listOfLists == nil) <==> (r == nil)
+//@ o-ensures: [length] len(r) == sumLen(listOfLists, len(listOfLists))
+//@ o-ensures: [concatenation-in-order] forall a int, b int :: 0 <= a && a < len(listOfLists) && 0 <= b && b < len(listOfLists[a]) ==> r[sumLen(listOfLists, a) + b] == listOfLists[a][b]
+//@ o-loop: 1: invariant l == sumLen(listOfLists, $i)
+//@ o-loop: 2: invariant res != nil && len(res) == sumLen(listOfLists, $i)
+//@ o-loop: 2: invariant forall a int, b int :: 0 <= a && a < $i && 0 <= b && b < len(listOfLists[a]) ==> res[sumLen(listOfLists, a) + b] == listOfLists[a][b]
+
+//@ func (g *gen) genString(typs []types.Type) (err error)
+//@ param typs: len=1 kind0=Slice ekind0=Basic ebasic0=string
+//@ emits: decls
+//@ serves: join len=1 kind=Slice ekind=Basic typs=typs
+//@ o-sig: (list []string) (r string)
+//@ o-pure
+//@ o-ensures: [concatenation] r == strJoin(list, "")
+
+//@ func (g *gen) genError(typs []types.Type) (err error)
+//@ param typs: len=2
+//@ emits: decls
+//@ o-fork: when nresults(typs[0])>=2 nilable result0(typs[0])
+//@ o-fork: when nresults(typs[0])>=3 nilable result1(typs[0])
+//@ serves: join len=2 kind=Signature typs=typs
+//@ o-sig: when nresults(typs[0])=1 (f func() error, err error) (rerr error)
+//@ o-sig: when nresults(typs[0])=2 (f func() ($result0(typs[0]), error), err error) (r0 $result0(typs[0]), rerr error)
+//@ o-sig: when nresults(typs[0])=3 (f func() ($result0(typs[0]), $result1(typs[0]), error), err error) (r0 $result0(typs[0]), r1 $result1(typs[0]), rerr error)
+//@ o-requires: f != nil
+//@ o-ensures: when nresults(typs[0])=1 [error-first] (err != nil ==> rerr == err && traceLen() == 0) && (err == nil ==> rerr == result(0, f) && traceLen() == 1 && called(0, f))
+//@ o-ensures: when nresults(typs[0])=2 [error-first] (err != nil ==> rerr == err && r0 == Zero(result0(typs0)) && traceLen() == 0) && (err == nil ==> r0 == result(0, f) && rerr == result(1, f) && traceLen() == 1 && called(0, f))
+//@ o-ensures: when nresults(typs[0])=3 [error-first] (err != nil ==> rerr == err && r0 == Zero(result0(typs0)) && r1 == Zero(result1(typs0)) && traceLen() == 0) && (err == nil ==> r0 == result(0, f) && r1 == result(1, f) && rerr == result(2, f) && traceLen() == 1 && called(0, f))
